@@ -8,7 +8,7 @@ open CV.Parse
   C14 pins <damage> <gen> <prior> => src=<pins> exp=<rt> expc=<rt> mar=<rt> snap=<rt> start=<rt>
   C14 rot <keep> <m> <data> <olds> <ops> => <st> <st> …
   C14 ps <self> <known> <peers> => pinfos=<pinfos> file=<lines> loaded=<lines> order=<ids> after=<pinfos> panic=<0|1>
-  C14 psfile <self> <lines> => loaded=<lines> order=<ids> panic=<0|1>
+  C14 psfile <self> <lines, each with optional ~r|~rr> [nl|nonl|bom|bom-nonl] => loaded=<lines> order=<ids> panic=<0|1>
 -/
 
 /-- list with separator `sep`, "-" for empty -/
@@ -73,14 +73,14 @@ def showRes (r : Res × PinMap) : String :=
 def modelExp (i : PinsIn) (src : PinMap) : Res × PinMap :=
   match exportStream src with
   | none => (.err, fromList i.prior)                -- nothing is imported
-  | some js => importState (fromList i.prior) js (i.damage != 0)
+  | some js => importState (fromList i.prior) js (!harmless i.damage)
 
 /-- raft export → crdt import → crdt export → raft import into an empty folder -/
 def modelExpc (i : PinsIn) (src : PinMap) : Res × PinMap :=
   let first : Res × PinMap :=
     match exportStream src with
     | none => (.err, fromList i.prior)
-    | some js => importStateCrdt (fromList i.prior) js (i.damage != 0)
+    | some js => importStateCrdt (fromList i.prior) js (!harmless i.damage)
   match first with
   | (.ok m, _) => (match exportStream m with
       | none => (.err, [])
@@ -118,7 +118,7 @@ def answerPins (ws : List String) : String :=
       let wf := pinsWf i
       let arm := "pins" ++ (if !wf then "-notwf" else "") ++
         (if i.gen.any (fun p => !p.origins.isEmpty) then "-origins" else "") ++
-        (if i.damage != 0 then "-damaged" else "") ++
+        (if !harmless i.damage then "-damaged" else if i.damage != 0 then "-reshaped" else "") ++
         (if i.prior.isEmpty then "" else "-prior") ++ (if i.gen.isEmpty then "-empty" else "") ++
         (if o.start.isSome then "-start" else "")
       let cs := pinsClauses i o
@@ -195,7 +195,8 @@ def answerRot (ws : List String) : String :=
   | some ([k, ms, d, olds, opss], post) =>
     let parsed : Option (Nat × Nat × ODirs × List (Op Nat) × List (Option ODirs)) := do
       let init : ODirs := { data := ← parseFolder d, old := ← (olds.splitOn ",").mapM parseFolder, extra := false }
-      pure (← k.toNat?, ← ms.toNat?, init, ← listSep "," parseOp opss, ← post.mapM parseODirs)
+      pure (← k.toNat?, (← ms.toNat?) % 100, init,  -- 100 * (folder name variant) + m
+            ← listSep "," parseOp opss, ← post.mapM parseODirs)
     match parsed with
     | none => "bad-case rot-parse"
     | some (keep, m, init, ops, obs) =>
@@ -203,7 +204,9 @@ def answerRot (ws : List String) : String :=
       let ks := keeps keep ops
       let seen := rotArm m ks init ops obs
       let tags := ["rotate", "drop", "gap", "outside", "panic"].filter seen.contains
-      let arm := "rot" ++ String.join (tags.map (fun t => "-" ++ t))
+      let arm := "rot" ++ String.join (tags.map (fun t => "-" ++ t)) ++
+        (if ((ms.toNat?).getD 0) ≥ 100 then "-oddname" else "") ++
+        (if ops.contains (.save 0) || init.data == some (.snap 0) then "-emptysnap" else "")
       let cs := rotTraceClauses m ks init ops obs
       if !allHold cs then "propfail " ++ failedNames cs ++ " arm=" ++ arm else
       let model := run (keep, init.dirs) ops
@@ -292,26 +295,54 @@ def answerPs (ws : List String) : String :=
       else "ok arm=" ++ arm ++ (if (listed i).isEmpty then " trivial" else "")
   | _ => "bad-case ps-shape"
 
+/-- line token with an optional line-end suffix: `~r` = "\r\n", `~rr` = "\r\r\n" -/
+def parseFLine (s : String) : Option FLine :=
+  match s.splitOn "~" with
+  | [t] => do let l ← parseLine t; pure { l := ← l, cr := 0 }
+  | [t, c] => do
+    let l ← parseLine t
+    let cr ← (if c == "r" then some 1 else if c == "rr" then some 2 else none)
+    pure { l := ← l, cr := cr }
+  | _ => none
+
+/-- file shape token: `nl` (default) | `nonl` | `bom` | `bom-nonl` -/
+def parseShape (s : String) : Option FileShape :=
+  if s == "nl" then some { finalNewline := true, bom := false }
+  else if s == "nonl" then some { finalNewline := false, bom := false }
+  else if s == "bom" then some { finalNewline := true, bom := true }
+  else if s == "bom-nonl" then some { finalNewline := false, bom := true }
+  else none
+
 def answerPsFile (ws : List String) : String :=
   match splitArrow ws with
-  | some ([sf, ls], post) =>
-    let parsed : Option (Nat × List Line × FileOut) := do
+  | some (sf :: ls :: shp, post) =>
+    let parsed : Option (Nat × FileShape × List FLine × FileOut) := do
       let o : FileOut := { loaded := ← (field "loaded" post).bind parseLines,
                            order := ← (field "order" post).bind nats,
                            panic := ← (field "panic" post).bind bool01 }
-      pure (← sf.toNat?, ← parseRealLines ls, o)
+      let sh ← (match shp with
+        | [] => some { finalNewline := true, bom := false }
+        | [t] => parseShape t
+        | _ => none)
+      pure (← sf.toNat?, sh, ← listSep "," parseFLine ls, o)
     match parsed with
     | none => "bad-case psfile-parse"
-    | some (self, file, o) =>
-      let bad := file.any (fun l => !l.loads)
+    | some (self, sh, ffile, o) =>
+      let file := ffile.map (·.l)
+      let bad := ffile.any (fun l => !l.parses)
       let arm := "psfile" ++ (if file.any (fun l => match l with | .slashBad _ => true | _ => false) then "-slashbad" else "") ++
         (if file.any (fun l => match l with | .noSlash _ => true | .empty => true | _ => false) then "-noslash" else "") ++
         (if file.any (fun l => match l with | .bare _ => true | _ => false) then "-bare" else "") ++
         (if contiguous (linePeers self file) then "" else "-interleaved") ++
-        (if file.contains .long then "-long" else "")
-      let cs := fileClauses self file o
+        (if file.contains .long then "-long" else "") ++
+        (if ffile.any (fun l => l.cr == 1) then "-crlf" else "") ++ (if ffile.any (fun l => l.cr ≥ 2) then "-crcr" else "") ++
+        (if sh.bom then "-bom" else "") ++
+        (if sh.finalNewline then "" else match ffile.getLast? with
+          | some l => if l.parses then "-nonl" else "-nonlbad"
+          | none => "-nonl")
+      let cs := fileClauses self sh ffile o
       if !allHold cs then "propfail " ++ failedNames cs ++ " arm=" ++ arm else
-      let loadedM := load file
+      let loadedM := loadShaped sh ffile
       let known2 := importPeers self loadedM psUniverse
       let i2 : PSInput := { self := self, known := known2, peers := psUniverse }
       let checks : List (String × Bool) :=
@@ -319,7 +350,7 @@ def answerPsFile (ws : List String) : String :=
       if !allHold checks then
         "diff " ++ failedNames checks ++ " arm=" ++ arm ++ " model=loaded=" ++ showList showLine "," loadedM ++
           " order=" ++ showNats ((peerInfos i2).map (·.1))
-      else "ok arm=" ++ arm ++ (if bad || !(linePeers self file).isEmpty then "" else " trivial")
+      else "ok arm=" ++ arm ++ (if bad || !(linePeers self loadedM).isEmpty then "" else " trivial")
   | _ => "bad-case psfile-shape"
 
 /-- answer for one case line (tokens after the leading "C14") -/
